@@ -252,6 +252,59 @@ algebraDone:
 		if mp != nil {
 			f = m
 			disjTrue, disjFalse = flagEdges(f, mp, inverted)
+		} else {
+			// the helper is not told the flag but handed "the set to keep within", nil for a
+			// disjunction: inside it, "keep == nil" is the disjunction
+			for _, b := range f.Blocks {
+				for _, in := range b.Instrs {
+					if ssax.StaticModuleCallee(in) != m {
+						continue
+					}
+					for i, a := range in.(ssa.CallInstruction).Common().Args {
+						if i >= len(m.Params) || !strings.HasSuffix(a.Type().String(), "roaring64.Bitmap") {
+							continue
+						}
+						phi, ok := a.(*ssa.Phi)
+						if !ok || len(phi.Edges) != 2 {
+							continue
+						}
+						okNil := false
+						for k, e := range phi.Edges {
+							if ssax.IsNilConst(e) && edgeOnlyVia(disjTrue, phi.Block().Preds[k], phi.Block()) && edgeOnlyVia(disjFalse, phi.Block().Preds[1-k], phi.Block()) {
+								okNil = true
+							}
+						}
+						if !okNil {
+							continue
+						}
+						prm := m.Params[i]
+						var nt, nf []ssax.Edge
+						for _, mb := range m.Blocks {
+							ifi, ok := mb.Instrs[len(mb.Instrs)-1].(*ssa.If)
+							if !ok {
+								continue
+							}
+							bo, ok := ifi.Cond.(*ssa.BinOp)
+							if !ok || (bo.Op != token.EQL && bo.Op != token.NEQ) {
+								continue
+							}
+							if !((bo.X == ssa.Value(prm) && ssax.IsNilConst(bo.Y)) || (bo.Y == ssa.Value(prm) && ssax.IsNilConst(bo.X))) {
+								continue
+							}
+							t, e := 0, 1
+							if bo.Op == token.NEQ {
+								t, e = 1, 0
+							}
+							nt = append(nt, ssax.Edge{From: mb, Succ: t})
+							nf = append(nf, ssax.Edge{From: mb, Succ: e})
+						}
+						if len(nt) > 0 {
+							f = m
+							disjTrue, disjFalse = nt, nf
+						}
+					}
+				}
+			}
 		}
 	}
 	writes := resultWrites(f)
@@ -310,6 +363,82 @@ algebraDone:
 		g := call.Call.StaticCallee()
 		return g != nil && g.Name() == "Contains" && strings.Contains(g.String(), "roaring64")
 	})...)
+	// "isKept := func(id) bool { return isDisjunction || finalSet.Contains(id) }": a literal whose
+	// every result is true on the disjunction edge or a membership test; a branch on its result
+	for _, b := range f.Blocks {
+		ifi, ok := b.Instrs[len(b.Instrs)-1].(*ssa.If)
+		if !ok {
+			continue
+		}
+		cond, neg := ifi.Cond, false
+		if u, ok := cond.(*ssa.UnOp); ok && u.Op == token.NOT {
+			cond, neg = u.X, true
+		}
+		call, ok := cond.(*ssa.Call)
+		if !ok || call.Call.IsInvoke() {
+			continue
+		}
+		lits := funcValuesOf(w, call.Call.Value, 0)
+		if g := call.Call.StaticCallee(); g != nil {
+			lits = []*ssa.Function{g}
+		}
+		for _, lit := range lits {
+			if lit.Parent() == nil {
+				continue
+			}
+			lt, _ := flagEdges(lit, disj, false)
+			isContains := func(v ssa.Value) bool {
+				cc, ok := v.(*ssa.Call)
+				if !ok {
+					return false
+				}
+				g := cc.Call.StaticCallee()
+				return g != nil && g.Name() == "Contains" && strings.Contains(g.String(), "roaring64")
+			}
+			okLit, nRet := true, 0
+			for _, lb := range lit.Blocks {
+				ret, isRet := lb.Instrs[len(lb.Instrs)-1].(*ssa.Return)
+				if !isRet || len(ret.Results) != 1 {
+					continue
+				}
+				nRet++
+				var check func(v ssa.Value, at *ssa.BasicBlock, pred *ssa.BasicBlock) bool
+				check = func(v ssa.Value, at, pred *ssa.BasicBlock) bool {
+					if cb, isC := ssax.ConstBool(v); isC {
+						if !cb {
+							return true
+						}
+						if pred != nil {
+							return edgeOnlyVia(lt, pred, at)
+						}
+						return onlyViaAny(lt, at)
+					}
+					if isContains(v) {
+						return true
+					}
+					if phi, ok := v.(*ssa.Phi); ok {
+						for i, e := range phi.Edges {
+							if !check(e, phi.Block(), phi.Block().Preds[i]) {
+								return false
+							}
+						}
+						return true
+					}
+					return false
+				}
+				if !check(ret.Results[0], lb, nil) {
+					okLit = false
+				}
+			}
+			if okLit && nRet > 0 {
+				e := 0
+				if neg {
+					e = 1
+				}
+				contains = append(contains, ssax.Edge{From: b, Succ: e})
+			}
+		}
+	}
 	nApp := 0
 	for _, wr := range writes {
 		call, isAppend := wr.(*ssa.Call)
@@ -893,6 +1022,20 @@ func flagEdges(fn *ssa.Function, flag ssa.Value, inverted bool) (onTrue, onFalse
 			if x.Op == token.NOT {
 				n, ok := meaning(x.X, depth+1)
 				return !n, ok
+			}
+			// the flag kept in a variable that a literal captures: a load of the cell it was stored into
+			// once, here or in the enclosing function
+			if x.Op == token.MUL {
+				switch cell := x.X.(type) {
+				case *ssa.Alloc:
+					if sv := ssax.SingleStore(cell); sv != nil {
+						return meaning(sv, depth+1)
+					}
+				case *ssa.FreeVar:
+					if sv := ssax.CapturedSingleStore(cell); sv != nil {
+						return meaning(sv, depth+1)
+					}
+				}
 			}
 		case *ssa.BinOp:
 			if x.Op == token.EQL || x.Op == token.NEQ {
